@@ -1,6 +1,7 @@
 package checks
 
 import (
+	"bytes"
 	"time"
 	"encoding/json"
 	"fmt"
@@ -164,6 +165,16 @@ func c09Eval(cs C09Case) string {
 			flags |= 0x80
 		}
 		msg := diam.NewMessage(m.Code, flags, m.App, 1, 2, c09Dict(m))
+		if !m.Priv && !m.Undefined && (cs.Subset+cs.Rereg)%2 == 0 {
+			// every other case: the message was READ off a connection as another command (a watchdog
+			// request) and its header is rewritten before dispatch, as a translating relay does -
+			// dispatch goes by the header the message has now
+			wire, _ := diam.NewMessage(280, 0x80, 0, 1, 2, dict.Default).Serialize()
+			if rm, err := diam.ReadMessage(bytes.NewReader(wire), dict.Default); err == nil {
+				rm.Header.CommandCode, rm.Header.ApplicationID, rm.Header.CommandFlags = m.Code, m.App, flags
+				msg = rm
+			}
+		}
 		if m.Undefined {
 			if cmd, err := c09Dict(m).FindCommand(m.App, m.Code); err == nil {
 				return fmt.Sprintf("the dictionary defines command %d neither for application %d nor for the base application, yet FindCommand resolves it to %q", m.Code, m.App, cmd.Short)
@@ -426,7 +437,7 @@ func runC09(ctx *ev.Ctx) {
 	}
 	ctx.Set("histories", hn)
 	ctx.Set("distinct_selected_handlers", len(outcomes)+1)
-	ctx.Rule = "histories: every sequence of <=5 (thorough 6) operations over {register one of the eight keys with a fresh handler, dispatch, dispatch during which the selected handler panics and the caller recovers as the serve loop does (at most once)} ending in a dispatch, replayed on one ServeMux with every dispatch compared with a reference model (map key -> latest handler; index, then name, then catch-all); AND the complete decision table: for 8 message keys (application 0xffffffff with command code 2^24-1, base CE, application CC, RA under Gx which redefines it, RA under S6a which resolves through the base dictionary, and three messages carrying a private dictionary whose base application defines a command the default dictionary lacks and names code 280 differently; plus three (application, code) pairs whose command exists only in an application that the AVP parent table - not command lookup - leads to: only the catch-all may see those) x request/answer (the other command flag bits P, E, T and the reserved bits rotate with the case: only R selects): all 2^8 subsets of the registrations {index K, index with other application, other code, other R bit, name of K, name with the other suffix, name of another command, ALL}, and every single re-registration of a present key with a second handler; the handler that fires and the number of error reports are compared with the reference decision (index, then name, then catch-all, else exactly one report)."
+	ctx.Rule = "histories: every sequence of <=5 (thorough 6) operations over {register one of the eight keys with a fresh handler, dispatch, dispatch during which the selected handler panics and the caller recovers as the serve loop does (at most once)} ending in a dispatch, replayed on one ServeMux with every dispatch compared with a reference model (map key -> latest handler; index, then name, then catch-all); AND the complete decision table: for 8 message keys (application 0xffffffff with command code 2^24-1, base CE, application CC, RA under Gx which redefines it, RA under S6a which resolves through the base dictionary, and three messages carrying a private dictionary whose base application defines a command the default dictionary lacks and names code 280 differently; plus three (application, code) pairs whose command exists only in an application that the AVP parent table - not command lookup - leads to: only the catch-all may see those) x request/answer (the other command flag bits P, E, T and the reserved bits rotate with the case: only R selects; every other message was read off a stream as a different command and had its header rewritten before dispatch): all 2^8 subsets of the registrations {index K, index with other application, other code, other R bit, name of K, name with the other suffix, name of another command, ALL}, and every single re-registration of a present key with a second handler; the handler that fires and the number of error reports are compared with the reference decision (index, then name, then catch-all, else exactly one report)."
 	ctx.Assume = []string{"exact-index and name registrations are judged for commands the dictionary defines (incoming messages have passed ReadMessage); for undefined commands only the catch-all / error-report rows are judged"}
 }
 
